@@ -29,7 +29,9 @@ func isAbortCall(ins ssa.Instruction) bool {
 
 func runC15(c *core.Ctx) {
 	defer func() {
-		c.Share(map[string]string{"R12.1": "R15.6"}, runC12) // the client going away makes the reply fail: that exit, too, must release the key lock
+		c.Share(map[string]string{"R12.1": "R15.6"}, runC12)
+		c.Rule("R15.7", "a handler that failed to open is not touched: where the accept loop uses the handler value on the failure edge of its constructor call, every handler constructor wired into the proxy returns the nil interface with its error", 2)
+		runR157(c, "R15.7") // the client going away makes the reply fail: that exit, too, must release the key lock
 	}()
 	c.Rule("R15.1", "every return of the connection loop is preceded by abort of the closer slice the server holds; the panic path aborts it in the deferred closure", 3)
 	c.Rule("R15.2", "abort closes every non-nil element of the slice it is given", 1)
@@ -268,6 +270,25 @@ func runR153(c *core.Ctx) {
 				for _, d := range ssax.Defs(cc.Value) {
 					if r.aliases[d] {
 						return true
+					}
+				}
+			}
+			// handed to abort in its closer slice (abort closes every non-nil element, R15.2)
+			if isAbortCall(ins) {
+				if cc := ssax.CallOf(ins); cc != nil && len(cc.Args) > 0 {
+					for _, s := range (&ssax.Prov{}).Sources(cc.Args[0], "[]") {
+						if r.aliases[s.V] || (s.Kind == "call" && s.Call == &r.acq.Call && s.Res == 0) {
+							return true
+						}
+						if s.Kind == "call" && s.Res == 0 {
+							for a := range r.aliases {
+								if ex, ok := a.(*ssa.Extract); ok {
+									if call, ok := ex.Tuple.(*ssa.Call); ok && &call.Call == s.Call {
+										return true
+									}
+								}
+							}
+						}
 					}
 				}
 			}
@@ -521,4 +542,133 @@ func sameChanVar(x, ch ssa.Value) bool {
 		return true
 	}
 	return walk(x)
+}
+
+// runR157 (R15.7, shared as R10.15): a handler that failed to open is not touched. Where the accept loop uses the
+// handler value of a handler-constructor call on that call's own failure edge (hands it to abort, closes it), every
+// handler constructor in the repository must return the nil interface together with its error - a zero-valued concrete
+// handler wrapped in the interface is non-nil, gets closed, and its Close dereferences a connection that was never
+// opened: a panic in the accept loop, which no recover guards, ends the process.
+func runR157(c *core.Ctx, rule string) {
+	las := c.P.Func("server", "ListenAndServe")
+	if las == nil {
+		c.Undecided(rule, "server.ListenAndServe#failed-handler-untouched", "-", "anchor not found")
+		return
+	}
+	// constructors that can return a non-nil handler together with an error
+	var dirty []string
+	for _, fn := range c.P.RepoFuncs("") {
+		sig := fn.Signature
+		if sig.Params().Len() != 0 || sig.Results().Len() != 2 || ssax.ShortType(sig.Results().At(0).Type()) != "handlers.Handler" || types.TypeString(sig.Results().At(1).Type(), nil) != "error" {
+			continue
+		}
+		for _, r := range ssax.Returns(fn) {
+			if len(r.Results) != 2 || ssax.IsNilConst(r.Results[1]) {
+				continue
+			}
+			for _, d := range ssax.Defs(r.Results[0]) {
+				if !ssax.IsNilConst(d) && !definitelyNilOn(r.Results[1], r.Block()) {
+					dirty = append(dirty, core.FuncName(fn)+" can return a non-nil handler with an error ("+c.P.Pos(r.Pos())+")")
+				}
+			}
+		}
+	}
+	dirty = uniq(dirty)
+	n := 0
+	for i, pi := range []int{4, 5} {
+		if pi >= len(las.Params) {
+			continue
+		}
+		var acq *ssa.Call
+		ssax.Instrs(las, func(ins ssa.Instruction) {
+			if call, ok := ins.(*ssa.Call); ok && call.Call.Value == ssa.Value(las.Params[pi]) {
+				acq = call
+			}
+		})
+		if acq == nil {
+			continue
+		}
+		n++
+		key := fmt.Sprintf("server.ListenAndServe#failed-L%d-handler-untouched", i+1)
+		var hv ssa.Value
+		for _, r := range *acq.Referrers() {
+			if ex, ok := r.(*ssa.Extract); ok && ex.Index == 0 {
+				hv = ex
+			}
+		}
+		e := errResult(acq)
+		if hv == nil || e == nil {
+			c.OK(rule, key, c.P.Pos(acq.Pos()), "the handler value is not used")
+			continue
+		}
+		used := ""
+		for _, st := range failureStarts(e, las) {
+			hit, _ := (ssax.Reach{
+				Target: func(ins ssa.Instruction) bool {
+					for _, op := range ins.Operands(nil) {
+						if op != nil && *op != nil && *op == hv {
+							return true
+						}
+					}
+					return false
+				},
+				Avoid: func(ins ssa.Instruction) bool {
+					call, ok := ins.(*ssa.Call)
+					return ok && call.Call.IsInvoke() && call.Call.Method.Name() == "Accept"
+				},
+			}).FromBlock(st)
+			if hit != nil {
+				used = c.P.Pos(hit.Pos())
+			}
+		}
+		switch {
+		case used == "":
+			c.OK(rule, key, c.P.Pos(acq.Pos()), "on the failure edge of the constructor call the handler value is not used")
+		case len(dirty) == 0:
+			c.OK(rule, key, c.P.Pos(acq.Pos()), "the handler value is used on the failure edge ("+used+"), and every handler constructor returns the nil interface with its error")
+		default:
+			c.Violate(rule, key, c.P.Pos(acq.Pos()), "the handler value of the failed constructor call is used at "+used+", and "+strings.Join(dirty, "; ")+": the non-nil zero handler is closed, its Close dereferences a connection that was never opened, and the panic - in the accept loop, outside any recover - ends the process")
+		}
+	}
+	if n == 0 {
+		c.Undecided(rule, "server.ListenAndServe#failed-handler-untouched", c.P.Pos(las.Pos()), "no handler constructor call found")
+	}
+}
+
+// definitelyNilOn: the error value is the nil constant on every path into block b (through its reaching definitions,
+// or because b is dominated by the test e == nil).
+func definitelyNilOn(e ssa.Value, b *ssa.BasicBlock) bool {
+	ds := ssax.Defs(e)
+	if len(ds) == 0 {
+		return false
+	}
+	for _, d := range ds {
+		if ssax.IsNilConst(d) {
+			continue
+		}
+		ok := false
+		for _, ec := range ssax.DomConds(b) {
+			bo, isBO := ec.Cond.(*ssa.BinOp)
+			if !isBO || !(ssax.IsNilConst(bo.X) || ssax.IsNilConst(bo.Y)) {
+				continue
+			}
+			x := bo.X
+			if ssax.IsNilConst(x) {
+				x = bo.Y
+			}
+			same := false
+			for _, dd := range ssax.Defs(x) {
+				if dd == d {
+					same = true
+				}
+			}
+			if same && ((bo.Op == token.EQL && ec.True) || (bo.Op == token.NEQ && !ec.True)) {
+				ok = true
+			}
+		}
+		if !ok {
+			return false
+		}
+	}
+	return true
 }
